@@ -644,17 +644,20 @@ pub fn cipher_check(a: &Args) -> Report {
   let oprf = OprfServer::new(vec![0, 1, 2, 3]).expect("oprf");
   const AUXL: [usize; 14] = [1, 2, 8, 15, 16, 17, 100, 157, 165, 166, 167, 200, 332, 500];
   for g in 0..groups {
-    let t: u32 = rng.gen_range(3..7);
+    // every fourth group is a long run of sub-threshold reports produced back to back in this
+    // thread (a nonce that repeats with some period is only visible across such a run)
+    let long_run = g % 4 == 1;
+    let t: u32 = if long_run { 14 } else { rng.gen_range(3..7) };
     let lm = [0usize, 1, 8, 32, 150, 166, 170, 400][(g % 8) as usize];
     let m = rand_bytes(&mut rng, lm);
     let e = vec![(g % 4) as u8];
     let src = if g % 5 == 4 { "oprf" } else { "local" };
     // a sequence of sub-threshold reports (2 or 3) with differing associated data
-    let nrep = 2 + (g % 2) as usize;
+    let nrep = if long_run { 12 } else { 2 + (g % 2) as usize };
     let mut cl: Vec<RealClient> = Vec::new();
     let mut pts: Vec<Vec<u8>> = Vec::new();
     for r in 0..nrep {
-      let la = AUXL[((g as usize) * 3 + r * 5) % AUXL.len()];
+      let la = if long_run { 20 + (g as usize % 3) * 70 } else { AUXL[((g as usize) * 3 + r * 5) % AUXL.len()] };
       let mut aux = rand_bytes(&mut rng, la);
       if la >= 1 {
         aux[0] = aux[0].wrapping_add(r as u8 + 1);
